@@ -874,6 +874,45 @@ pub fn exec_line(sess: &mut Session, line: &str) -> String {
             }
             out.join(" ")
         }
+        "@two_full_tables" => {
+            // the row limit and the 16-bit reference count of one pool entry meet: two tables of
+            // 65,536 rows whose every row holds the same text (the second filled in two batches,
+            // with a reopen in between); then a third table and a new text still fit
+            let res = std::panic::catch_unwind(std::panic::AssertUnwindSafe(|| -> Vec<String> {
+                let mut out: Vec<String> = vec![];
+                let medium = crate::session::Medium::new(Vec::new());
+                let mut pkg = msi::Package::create(msi::PackageType::Installer, medium.clone()).unwrap();
+                let cols = || vec![msi::Column::build("K").primary_key().int32(), msi::Column::build("S").nullable().string(16)];
+                let rows = |from: i32, n: i32| -> Vec<Vec<msi::Value>> { (from..from + n).map(|i| vec![msi::Value::Int(i), msi::Value::Str("Installed".into())]).collect() };
+                pkg.create_table("First", cols()).unwrap();
+                out.push(format!("first:{}", crate::session::res_unit(pkg.insert_rows(msi::Insert::into("First").rows(rows(0, 65536)))).replace(' ', "_")));
+                pkg.create_table("Second", cols()).unwrap();
+                out.push(format!("second-a:{}", crate::session::res_unit(pkg.insert_rows(msi::Insert::into("Second").rows(rows(0, 40000)))).replace(' ', "_")));
+                let bytes = pkg.into_inner().map(|m| m.snapshot_bytes());
+                let mut pkg = match bytes.and_then(|b| msi::Package::open(crate::session::Medium::new(b))) {
+                    Ok(p) => p,
+                    Err(e) => {
+                        out.push(format!("reopen-err:{}", crate::session::kind_name(&e)));
+                        return out;
+                    }
+                };
+                out.push(format!("second-b:{}", crate::session::res_unit(pkg.insert_rows(msi::Insert::into("Second").rows(rows(40000, 25536)))).replace(' ', "_")));
+                pkg.create_table("Third", cols()).unwrap();
+                out.push(format!("third:{}", crate::session::res_unit(pkg.insert_rows(msi::Insert::into("Third").row(vec![msi::Value::Int(1), msi::Value::Str("a new text".into())]))).replace(' ', "_")));
+                let count = |pkg: &mut crate::session::Pkg, t: &str| -> String {
+                    match pkg.select_rows(msi::Select::table(t)) {
+                        Ok(rows) => rows.filter(|r| r[1] == msi::Value::Str("Installed".into())).count().to_string(),
+                        Err(e) => format!("ERR:{}", crate::session::kind_name(&e)),
+                    }
+                };
+                out.push(format!("counts={},{}", count(&mut pkg, "First"), count(&mut pkg, "Second")));
+                out
+            }));
+            match res {
+                Ok(o) => o.join(" "),
+                Err(_) => "panic".to_string(),
+            }
+        }
         "@catalog_hand_limit" => {
             // `_Validation` (or `_Columns`) brought to within `room` rows of the limit by ordinary
             // inserts of rows that describe no table; then a create_table that needs one row more
